@@ -153,6 +153,24 @@ Definition hyp_ok (a : astore) (o : op) : bool :=
   | _ => true
   end.
 
+(* id 0 (which scru128 never produces) must not be the id of an xs.context frame: removing
+   such a frame would unregister the zero context (Store::remove deletes the frame's id from
+   the registry whatever it is) *)
+Definition nonzero_reg (o : op) : bool :=
+  match o with
+  | OAppend i f => negb (is_ctx_topic (f_topic f) && (i =? 0))
+  | OImport f => negb (is_ctx_topic (f_topic f) && (f_id f =? 0))
+  | _ => true
+  end.
+
+Definition hyp_all (a : astore) (o : op) : bool := hyp_ok a o && nonzero_reg o.
+
+Fixpoint hyps_all (ops : list op) (a : astore) : bool :=
+  match ops with
+  | [] => true
+  | o :: r => hyp_all a o && hyps_all r (snd (a_step a o))
+  end.
+
 Fixpoint a_run_obs (ops : list op) (a : astore) : list obs :=
   match ops with
   | [] => []
